@@ -1,4 +1,5 @@
 import Jose.Cfg
+import Jose.Grid.C17
 import Jose.Jws
 import Jose.Jwe
 /-
@@ -350,5 +351,14 @@ example :
     let ops := [Op.new, .new, .set 0 1 2, .set 1 2 3, .incref 0, .decref 0, .get 0, .err (some 1) 0 "m"]
     (run [] ops).2 = [.created 0, .created 1, .unit, .unit, .unit, .unit, .misc 2, .delivered 2 3 0 "m"] := by
   decide
+
+
+/-! ### the model is the code, on a grid regenerated from the code on every run
+
+  `Jose/Grid/C17.lean` is rewritten by the translator (tools/extract_tables.py) on every run: it holds what
+  lib/cfg.c **built from the current working tree** did on configuration-context histories: every sequence of at most two of the 25 context operations (create, share, release, register / clear / read back handler and pointer, report an error with and without a context, library error codes) after two contexts were created — including what the default handler prints.
+  The theorem is checked by the kernel (`decide +kernel`: evaluation of the context model, no axiom). -/
+theorem model_is_code_on_grid : Jose.Grid.C17.chunks.all (fun c => c.all Jose.Driver.agrees) = true := by
+  decide +kernel
 
 end Jose.Props.C17
